@@ -270,3 +270,99 @@ Theorem C09_replace_roots_buffers_bounded :
     sumN (replace_allocs hdrdec o a) <= 2 * Transform.x_maxh o.
 Proof. exact replace_allocs_bound. Qed.
 Print Assumptions C09_replace_roots_buffers_bounded.
+
+(* ---- (6) LoadIndex / GenerateIndex over every source kind (theories/IndexGen.v) ----------------------- *)
+From GoCar Require IndexGen Inspect ReadOnly BlockReaderPos.
+From GoCarProofs Require Import TotalGen TotalRO TotalWalk.
+(* seekable source or plain io.Reader, CARv1 or CARv2, any StoreIdentityCIDs / MaxIndexCidSize: the section
+   loop ends (every iteration moves the source forward, whatever the seek does) and returns or errs *)
+Theorem C09_generate_index_total :
+  forall hdrdec k o all, IndexGen.g_maxh o <= go_max_alloc ->
+    tot_gen hdrdec k o all = TOk \/
+    exists e, tot_gen hdrdec k o all = TErr e /\ e <> EFuel /\ e <> EPanic.
+Proof. exact tot_gen_total. Qed.
+Print Assumptions C09_generate_index_total.
+Theorem C09_generate_index_buffers_bounded :
+  forall hdrdec fx k o all,
+    Forall (fun a => a <= IndexGen.g_maxh o \/ a <= max_digest_alloc) (gen_allocs hdrdec fx k o all).
+Proof. exact gen_allocs_bound. Qed.
+Print Assumptions C09_generate_index_buffers_bounded.
+
+(* ---- (7) NewReader + Inspect, both modes (theories/Inspect.v) ------------------------------------------ *)
+Theorem C09_inspect_total :
+  forall hok hdrdec o file validate, o_maxh o <= go_max_alloc ->
+    tot_inspect hok hdrdec o file validate = TOk \/
+    exists e, tot_inspect hok hdrdec o file validate = TErr e /\ e <> EFuel /\ e <> EPanic.
+Proof. exact tot_inspect_total. Qed.
+Print Assumptions C09_inspect_total.
+Theorem C09_inspect_buffers_bounded :
+  forall hok hdrdec o file validate,
+    Forall (fun a => a <= o_maxh o \/ a <= max_digest_alloc) (inspect_allocs hok hdrdec o file validate).
+Proof. exact inspect_allocs_bound. Qed.
+Print Assumptions C09_inspect_buffers_bounded.
+
+(* ---- (8) read-only stores (theories/ReadOnly.v) ---------------------------------------------------------- *)
+(* blockstore.NewReadOnly then Get: opens (generating the index or decoding the embedded one) or fails,
+   and Get returns the block or an error *)
+Theorem C09_readonly_blockstore_total :
+  forall hdrdec o file key,
+    ReadOnly.q_maxh o <= go_max_alloc -> ReadOnly.q_maxs o <= go_max_alloc -> 2 * blen file <= go_max_alloc ->
+    tot_robs hdrdec o file key = TOk \/
+    (exists e, tot_robs hdrdec o file key = TOpen e /\ e <> EFuel /\ e <> EPanic) \/
+    (exists e, tot_robs hdrdec o file key = TErr e /\ e <> EFuel /\ e <> EPanic).
+Proof. exact tot_robs_total. Qed.
+Print Assumptions C09_readonly_blockstore_total.
+(* storage.OpenReadable then Get (GetStream + ReadAll) *)
+Theorem C09_readable_storage_total :
+  forall hdrdec o file key,
+    ReadOnly.q_maxh o <= go_max_alloc -> ReadOnly.q_maxs o <= go_max_alloc -> 2 * blen file <= go_max_alloc ->
+    tot_storage hdrdec o file key = TOk \/
+    (exists e, tot_storage hdrdec o file key = TOpen e /\ e <> EFuel /\ e <> EPanic) \/
+    (exists e, tot_storage hdrdec o file key = TErr e /\ e <> EFuel /\ e <> EPanic).
+Proof. exact tot_storage_total. Qed.
+Print Assumptions C09_readable_storage_total.
+(* AllKeysChan: the walk ends; what reaches the error handler is an ordinary error *)
+Theorem C09_all_keys_total :
+  forall hdrdec s,
+    match ReadOnly.ro_keys hdrdec s with
+    | ReadOnly.KOpenErr e => e <> EFuel /\ e <> EPanic
+    | ReadOnly.KKeys _ (Some e) => e <> EFuel /\ e <> EPanic
+    | ReadOnly.KKeys _ None => True
+    end.
+Proof. exact ro_keys_total. Qed.
+Print Assumptions C09_all_keys_total.
+(* opening: header buffers within MaxAllowedHeaderSize, digest buffers within go-cid's constant, buckets of
+   an embedded index within 1 MiB or twice the file; a query: section buffers within
+   MaxAllowedSectionSize (Get) or digest buffers (Has / GetSize / GetStream) *)
+Theorem C09_readonly_open_buffers_bounded :
+  forall hdrdec o file,
+    Forall (fun a => a <= ReadOnly.q_maxh o \/ a <= ReadOnly.q_maxs o \/ a <= max_digest_alloc \/
+                     a <= idx_chunk \/ a <= 2 * blen file) (ro_open_allocs hdrdec o file) /\
+    Forall (fun a => a <= ReadOnly.q_maxh o \/ a <= ReadOnly.q_maxs o \/ a <= max_digest_alloc \/
+                     a <= idx_chunk \/ a <= 2 * blen file) (sto_open_allocs hdrdec o file).
+Proof. exact (fun hdrdec o file => conj (ro_open_allocs_bound hdrdec o file) (sto_open_allocs_bound hdrdec o file)). Qed.
+Print Assumptions C09_readonly_open_buffers_bounded.
+Theorem C09_find_cid_buffers_bounded :
+  forall view key kp whole zeof maxs readbytes offs,
+    Forall (fun a => a <= maxs \/ a <= max_digest_alloc)
+           (find_cid_allocs view offs key kp whole zeof maxs readbytes).
+Proof. exact (find_cid_allocs_bound dec_header_canon). Qed.
+Print Assumptions C09_find_cid_buffers_bounded.
+
+(* ---- (9) BlockReader.Next / SkipNext in any order (theories/BlockReaderPos.v) ----------------------------- *)
+(* a reader driven by ANY string of Next (true) / SkipNext (false) choices longer than the file has run
+   into an error -- i.e. the `for { Next / SkipNext }` loop terminates on every input -- and that error,
+   like the one of a failed NewBlockReader, is an ordinary one *)
+Theorem C09_next_skipnext_total :
+  forall hok hdrdec o seek file w,
+    o_maxh o <= go_max_alloc -> o_maxs o <= go_max_alloc -> (length file < length w)%nat ->
+    (exists e, tot_brskip hok hdrdec o seek file w = TOpen e /\ e <> EFuel /\ e <> EPanic) \/
+    (exists e, tot_brskip hok hdrdec o seek file w = TEnd e /\ e <> EFuel /\ e <> EPanic).
+Proof. exact tot_brskip_total. Qed.
+Print Assumptions C09_next_skipnext_total.
+Theorem C09_next_skipnext_buffers_bounded :
+  forall hok hdrdec o seek file w,
+    Forall (fun a => a <= o_maxh o \/ a <= o_maxs o \/ a <= max_digest_alloc)
+           (brp_run_allocs hok hdrdec o seek file w).
+Proof. exact brp_run_allocs_bound. Qed.
+Print Assumptions C09_next_skipnext_buffers_bounded.
